@@ -1,0 +1,16 @@
+//go:build verif
+
+package scanner
+
+import "sync/atomic"
+
+// VerifCTSetHook installs (or, with nil, removes) the verification hook.  Must not be
+// called while a Scan is running.
+func VerifCTSetHook(f func(ev string, id int, a, b int64, err error)) {
+	verifCTHook = f
+}
+
+// VerifCTCounters returns the scanner's counters.  Only meaningful after Scan returned.
+func (s *Scanner) VerifCTCounters() (certsProcessed, precertsSeen, unparsableEntries, entriesWithNonFatalErrors int64) {
+	return atomic.LoadInt64(&s.certsProcessed), s.precertsSeen, s.unparsableEntries, s.entriesWithNonFatalErrors
+}
